@@ -556,7 +556,14 @@ pub fn run_c16(_args: &Args, tier: &str, seed: u64) -> Report {
             match reg::lookup(reg::OPERATIONS, code) {
                 Some(e) if reg::names_entry(e, &format!("{op:?}")) => {}
                 Some(e) => rep.violation(format!("C16:operation:wrong-symbol:{code:#06x}"), format!("operation {code:#06x} is {} in the registry but decodes to {op:?}", e.1), none()),
-                None => rep.violation(format!("C16:operation:unregistered:{code:#06x}"), format!("{code:#06x} is not a registered operation id but decodes to {op:?}"), none()),
+                None => {
+                    // not in the harness's table: cannot be judged, unless its symbol is the name of a registered operation with another code
+                    if let Some(e) = reg::find_by_name(reg::OPERATIONS, &format!("{op:?}")) {
+                        rep.violation(format!("C16:operation:alias:{code:#06x}"), format!("{code:#06x} decodes to {op:?}, the name the registry gives to {:#06x}", e.0), none());
+                    } else {
+                        rep.count("operations_outside_the_harness_table_unjudged", 1);
+                    }
+                }
             }
             if op as u32 != code {
                 rep.violation("C16:operation:discriminant", format!("{op:?} as integer is {:#06x}, decoded from {code:#06x}", op as u32), none());
@@ -587,6 +594,7 @@ pub fn run_c16(_args: &Args, tier: &str, seed: u64) -> Report {
             rep.count("value_tags_recognised", 1);
             match reg::lookup(reg::VALUE_TAGS, b) {
                 Some(e) if reg::names_entry(e, &format!("{v:?}")) && v as u32 == b => {}
+                None if v as u32 == b && reg::find_by_name(reg::VALUE_TAGS, &format!("{v:?}")).is_none() => rep.count("value_tags_outside_the_harness_table_unjudged", 1),
                 other => rep.violation(format!("C16:value-tag:{b:#04x}"), format!("value tag {b:#04x} decodes to {v:?} (as {:#04x}); registry: {other:?}", v as u32), none()),
             }
         }
@@ -636,7 +644,13 @@ pub fn run_c16(_args: &Args, tier: &str, seed: u64) -> Report {
                 rep.eval();
                 if let Some(v) = <$ty>::from_i32(x) {
                     rep.count(concat!($name, "_values_recognised"), 1);
-                    let ok = x >= 0 && reg::lookup($table, x as u32).map(|e| reg::names_entry(e, &format!("{v:?}"))).unwrap_or(false) && v as i32 == x;
+                    // a value missing from the harness's table is unjudged unless its symbol names another registered value
+                    let entry = if x >= 0 { reg::lookup($table, x as u32) } else { None };
+                    let ok = v as i32 == x
+                        && match entry {
+                            Some(e) => reg::names_entry(e, &format!("{v:?}")),
+                            None => x >= 0 && reg::find_by_name($table, &format!("{v:?}")).is_none(),
+                        };
                     if !ok {
                         rep.violation(format!("C16:{}:{x}", $name), format!("{} value {x} decodes to {v:?} (as {}); registry: {:?}", $name, v as i32, if x >= 0 { reg::lookup($table, x as u32) } else { None }), none());
                     }
